@@ -278,6 +278,78 @@ func genScan(g *abi.Gen, out *lib.Out, d *abi.Decl, nvals int, kind string) {
 	scanCase(out, d, vals, datas, garbage, kind)
 }
 
+// fixedSameSignature: decoders built in ONE process, in both orders, for
+// declarations with the same event name and the same input types (the same
+// signature) but different column selections or different indexed flags
+// (ERC-721 Transfer with tokenId indexed, then ERC-20 Transfer).  Each must
+// decode with ITS OWN selection: type tree, Scan through one Result, and the
+// same logs through dig.New + Integration.Insert.
+func fixedSameSignature(out *lib.Out, r *lib.RNG) error {
+	e := func(kind string, bits int, sel, indexed bool, dims ...int) *abi.Ty {
+		return &abi.Ty{EKind: kind, Bits: bits, Sel: sel, Indexed: indexed, Dims: dims}
+	}
+	tup := func(dims []int, cs ...*abi.Ty) *abi.Ty { return &abi.Ty{EKind: "tuple", Comps: cs, Dims: dims} }
+	groups := [][][]*abi.Ty{
+		{ // Transfer(address,address,uint256): ERC-721 (tokenId indexed), ERC-20 (value in data), selections
+			{e("address", 0, false, true), e("address", 0, false, true), e("uint", 256, false, true)},
+			{e("address", 0, false, true), e("address", 0, false, true), e("uint", 256, true, false)},
+			{e("address", 0, true, false), e("address", 0, true, false), e("uint", 256, true, false)},
+			{e("address", 0, false, true), e("address", 0, true, false), e("uint", 256, false, false)},
+		},
+		{ // (uint256, bytes, uint256[]): every selection of a scalar, a dynamic member and an array
+			{e("uint", 256, true, false), e("bytes", 0, false, false), e("uint", 256, false, false, 0)},
+			{e("uint", 256, false, false), e("bytes", 0, true, false), e("uint", 256, true, false, 0)},
+			{e("uint", 256, true, false), e("bytes", 0, true, false), e("uint", 256, true, false, 0)},
+			{e("uint", 256, false, false), e("bytes", 0, false, false), e("uint", 256, true, false, 0)},
+		},
+		{ // tuple[] with different selected components
+			{tup([]int{0}, e("address", 0, true, false), e("string", 0, false, false)), e("bool", 0, false, false)},
+			{tup([]int{0}, e("address", 0, false, false), e("string", 0, true, false)), e("bool", 0, true, false)},
+		},
+	}
+	run := func(evName string, ins []*abi.Ty) error {
+		nm, col := 0, 0
+		var w func(t *abi.Ty)
+		w = func(t *abi.Ty) {
+			t.Name = fmt.Sprintf("a%d", nm)
+			nm++
+			t.Col = ""
+			if t.Sel {
+				t.Col = fmt.Sprintf("c%d", col)
+				col++
+			}
+			for _, c := range t.Comps {
+				w(c)
+			}
+		}
+		for _, t := range ins {
+			w(t)
+		}
+		d, err := abi.NewDecl(evName, ins)
+		if err != nil {
+			return err
+		}
+		declCase(out, d, "decl-same-signature")
+		if d.Panic == "" && d.NCols > 0 {
+			genScan(&abi.Gen{R: r.Fork(), MaxDepth: 2}, out, d, 3, "scan-same-signature")
+		}
+		return nil
+	}
+	for gi, grp := range groups {
+		for i := range grp {
+			if err := run(fmt.Sprintf("Same%d", gi), grp[i]); err != nil {
+				return err
+			}
+		}
+		for i := len(grp) - 1; i >= 0; i-- {
+			if err := run(fmt.Sprintf("Rev%d", gi), grp[i]); err != nil {
+				return err
+			}
+		}
+	}
+	return nil
+}
+
 func runC09(cfg lib.Cfg) error {
 	per := 36
 	if cfg.Thorough() {
@@ -299,6 +371,9 @@ func runC09(cfg lib.Cfg) error {
 		if extractor, err = abi.NewExtractor("c09", 8, 400); err != nil {
 			return fmt.Errorf("extracted evaluator: %w", err)
 		}
+	}
+	if err := fixedSameSignature(out, r.Fork()); err != nil {
+		return err
 	}
 	for i, ins := range corpus() {
 		d, err := abi.NewDecl(fmt.Sprintf("Corpus%d", i), ins)
